@@ -16,7 +16,7 @@ from vv.core import Result, exc_violation
 from vv.ref import timeline as ref
 
 ID = 'C19'
-CASES = {'quick': 400, 'thorough': 6000}
+CASES = {'quick': 1000, 'thorough': 60000}
 RULE = ('Hypothesis draws 1..8 events on a 0.5 grid (duplicate times split '
         'into several events with disjoint variables, several events between '
         'two ticks), a listing permutation, a timeline timestep in '
